@@ -72,6 +72,10 @@ func (t *Topology) Get(kind string) *PeerList {
 func (t *Topology) Each(n int, l *PeerList) *PeerList {
 	var p PeerList
 
+	// routing decisions run concurrently with joins and leaves
+	t.Lock()
+	defer t.Unlock()
+
 	for _, list := range t.m {
 		p.Append(list.Exclude(l).Shuffle().Take(n))
 	}
